@@ -113,4 +113,68 @@ example : (run init [.wStep, .wStep, .wStep, .nPublish 0 true, .nStep 0, .nStep 
 example : (run init [.nPublish 0 true, .nStep 0, .wStep, .wStep]).map (fun s => s.wpc) =
     some .done := by decide
 
+/-! ### No quiescent state short of `done` -/
+
+/-- Only a producer's publish changes the condition. -/
+theorem ready_changes_only_by_publish {s s' : State} {a : Act} (h : step s a = some s')
+    (hne : ∀ j v, a ≠ .nPublish j v) : s'.ready = s.ready := by
+  cases a with
+  | wStep =>
+    simp only [step] at h
+    split at h
+    · simp at h; subst h; rfl
+    · split at h <;> simp at h <;> subst h <;> rfl
+    · split at h <;> simp at h <;> subst h <;> rfl
+    · split at h <;> simp at h; subst h; rfl
+    · simp at h
+  | nPublish j v => exact absurd rfl (hne j v)
+  | nStep j =>
+    simp only [step] at h
+    split at h
+    · simp at h
+    · split at h <;> simp at h <;> subst h <;> rfl
+    · simp at h; subst h; rfl
+
+/-- **no_deadlock.** A reachable state in which the condition holds and in which neither the
+    waiter nor any producer's pending `notify` can take a step is a state in which the waiter has
+    returned: the system never comes to rest with the coordinator parked on a true condition, so
+    there is nothing for the stall timer to rescue. -/
+theorem quiescent_implies_done (as : List Act) (s : State) (h : run init as = some s)
+    (hready : s.ready = true) (hw : step s .wStep = none) (hn : ∀ j, step s (.nStep j) = none) :
+    s.wpc = .done := by
+  have hi := inv_run as _ _ inv_init h
+  cases hpc : s.wpc with
+  | start => simp [step, hpc] at hw
+  | check1 => simp [step, hpc, hready] at hw
+  | check2 => simp [step, hpc, hready] at hw
+  | done => rfl
+  | park =>
+    cases ht : s.token with
+    | true => simp [step, hpc, ht] at hw
+    | false =>
+      rcases hi.wake hready hpc ht with ⟨j, hj | hj⟩
+      · have := hn j
+        simp only [step, hj] at this
+        split at this <;> simp at this
+      · have := hn j
+        simp [step, hj] at this
+
+/-- The waiter is never disabled except when parked without a token or finished. -/
+theorem waiter_blocked_only_at_park {s : State} (hw : step s .wStep = none) :
+    (s.wpc = .park ∧ s.token = false) ∨ s.wpc = .done := by
+  cases hpc : s.wpc with
+  | start => simp [step, hpc] at hw
+  | check1 => simp only [step, hpc] at hw; split at hw <;> simp at hw
+  | check2 => simp only [step, hpc] at hw; split at hw <;> simp at hw
+  | done => exact Or.inr rfl
+  | park =>
+    cases ht : s.token with
+    | true => simp [step, hpc, ht] at hw
+    | false => exact Or.inl ⟨rfl, rfl⟩
+
+/-- Non-vacuity of `quiescent_implies_done`: a quiescent reachable state with the condition set. -/
+example : (run init [.wStep, .wStep, .wStep, .nPublish 0 true, .nStep 0, .nStep 0, .wStep, .wStep]).map
+    (fun s => (s.ready, (step s .wStep).isNone, (step s (.nStep 0)).isNone)) =
+      some (true, true, true) := by decide
+
 end Grevm.WaitSlot
